@@ -47,7 +47,7 @@ def unit_decorator(tier):
     u.lib['functools.wraps'] = lambda i, l, f: PyFn(lambda ii, ll, g: (rec.__setitem__('wrapped', f) or g))
 
     def weakref_ref(interp, line, obj):
-        r = SObj('WeakRef', referent=obj)
+        r = SObj('WeakRef', referent=obj, __isa__=('ref', 'ReferenceType'))
         rec.setdefault('refs', []).append(r)
         return r
     u.lib['weakref.ref'] = weakref_ref
